@@ -3,7 +3,7 @@
 \* loop orders of up to 4 loops; exhaustive, nothing filtered
 SPECIFICATION Spec
 CONSTANTS
-  Families = {"branch2","branch3","skip","place","order"}
+  Families = {"branch2","branch3","skip","place","order","pairdecl","pairnest"}
   MaxChain = 3
   MaxChain3 = 2
 INVARIANT TypeOK
